@@ -137,7 +137,7 @@ def world_part(kind, pid):
     d = {'engine': 'kani', 'family': 'world-' + kind, 'module': 'world', 'jobs': 10, 'timeout_quick': 420, 'timeout_thorough': 1200, 'mem_gb': 14, 'unlabelled_owner': pid}
     if kind == 'ok':
         if pid == 'C08':
-            d['select'] = sel('world', r'^world_ok_(static|clone|history4)$', r'^world_ok_(static|clone|history\d+)$')
+            d['select'] = sel('world', r'^world_ok_(static|clone|history4|history_by_id4)$', r'^world_ok_(static|clone|history\d+|history_by_id\d+)$')
         else:
             d['select'] = sel('world', r'^world_ok_(static|clone|dynamic_\w+|typed|drops)$')
         d['native_sanity'] = True
@@ -150,12 +150,12 @@ def world_part(kind, pid):
 
 def data_part():
     return {'engine': 'kani', 'family': 'data', 'module': 'data', 'unlabelled_owner': 'C06', 'native_sanity': True, 'jobs': 12, 'timeout_quick': 420, 'timeout_thorough': 1200, 'mem_gb': 14,
-            'select': sel('data', r'^data_(read_p111|write_p111|read_expect_p001|write_expect_p100|opt_read_p000|opt_read_p100|opt_write_p000|opt_write_p010|unit_p111|phantom_p111|tuple1_p001|tuple2_p110|tuple3_p011|tuple_same_read_p100|nested_p101|derive_named_p110|derive_tuple_p100|derive_tuple_p101|derive_nested_p110|derive_generic_p011|system_data_p101)$', r'^data_')}
+            'select': sel('data', r'^data_(read_p111|write_p111|read_expect_p001|write_expect_p100|opt_read_p000|opt_read_p100|opt_write_p000|opt_write_p010|unit_p111|phantom_p111|tuple1_p001|tuple2_p110|tuple3_p011|tuple_same_read_p100|nested_p101|derive_named_p110|derive_tuple_p100|derive_tuple_p101|derive_nested_p110|derive_generic_p011|system_data_p101|derive_two_instantiations)$', r'^data_')}
 
 
 WORLD_FUNCS = ['World::{empty,insert,insert_by_id,remove,remove_by_id,has_value,has_value_raw,get_mut,get_mut_raw,fetch,fetch_mut,try_fetch,try_fetch_mut,try_fetch_by_id,try_fetch_mut_by_id,try_fetch_internal}',
                'ResourceId::{new,new_with_dynamic_id,assert_same_type_id} + derived Eq', 'Fetch / FetchMut (deref, drop, clone)', 'atomic_refcell::AtomicRefCell (the real crate)']
-WORLD_BOUNDS = {'borrow histories (E1, C08)': 'EVERY sequence of 4 (quick) / 3, 4, 6, 8 (thorough) operations on one resource out of {shared fetch into slot 1 or 2, exclusive fetch, drop of each of the three guards} - the operation of each step is a solver variable; an operation the borrow model forbids is skipped (what happens then is the conflict family); after every step the real cell is probed and must be free / shared / exclusive as the model says',
+WORLD_BOUNDS = {'borrow histories (E1, C08)': 'EVERY sequence of 4 (quick) / 3, 4, 6, 8 (thorough) operations (static API) and of 4 / 4, 6 operations (by-id API, solver-chosen dynamic id) on one resource out of {shared fetch into slot 1 or 2, exclusive fetch, drop of each of the three guards} - the operation of each step is a solver variable; an operation the borrow model forbids is skipped (what happens then is the conflict family); after every step the real cell is probed and must be free / shared / exclusive as the model says',
                 'world histories (E1)': 'the listed scenarios: <= 3 resources (2 static types, 2 symbolic u64 dynamic ids), <= 6 API calls each; payloads, dynamic ids symbolic (all 2^64 values)',
                 'resource map': 'association-list contract model of ahash::AHashMap (get/insert/remove/contains_key; entry() not modelled - it panics)'}
 WORLD_ASSUME = ['the resource map is an association list with HashMap\'s contract (one slot per equal key, insert replaces, remove returns): hashbrown itself is not executed under Kani (it is in the native replay)',
